@@ -84,8 +84,10 @@ func (f *Member) Call(s *slip.Scope, args slip.List, depth int) (result slip.Obj
 			keyFunc = ResolveToCaller(s, args[pos+1], depth)
 		case ":test":
 			testFunc = ResolveToCaller(s, args[pos+1], depth)
+		case ":test-not":
+			testFunc = notCaller{Caller: ResolveToCaller(s, args[pos+1], depth)}
 		default:
-			slip.TypePanic(s, depth, "keyword", sym, ":key", ":test")
+			slip.TypePanic(s, depth, "keyword", sym, ":key", ":test", ":test-not")
 		}
 	}
 	if pos < len(args) {
